@@ -55,7 +55,24 @@ func c04Tools(ctx *Ctx) []string {
 	return tools
 }
 
+// c04Truth: when the database was loaded from a file the harness wrote, the platforms each entry declares IN THE FILE, by
+// position (an entry that lost its tags on the way in would otherwise look unrestricted).
+var c04Truth map[*database.Command][]string
+
 func c04Report(ctx *Ctx, cs map[string]interface{}, o database.SearchOptions, rs []database.SearchResult, entry, path string) {
+	if c04Truth != nil {
+		rs2 := make([]database.SearchResult, 0, len(rs))
+		for _, x := range rs {
+			if pl, ok := c04Truth[x.Command]; ok && x.Command != nil {
+				c := *x.Command
+				c.Platform = pl
+				rs2 = append(rs2, database.SearchResult{Command: &c, Score: x.Score})
+			} else {
+				rs2 = append(rs2, x)
+			}
+		}
+		rs = rs2
+	}
 	for _, is := range vlib.CheckFilters(o, rs, c04IsTool) {
 		ctx.R.Violate(vlib.Violation{Property: "C04", Clause: is.Clause, Path: entry + "/" + path, Detail: is.Detail, Witness: cs})
 	}
@@ -93,7 +110,38 @@ func engineFilters(ctx *Ctx) {
 					}
 				}
 			}
-			if !ctx.R.Guard("C04", "LoadDatabase", dbName, func() { db = vlib.MustLoad(cmds0) }) {
+			c04Truth = nil
+			if !ctx.R.Guard("C04", "LoadDatabase", dbName, func() {
+				if ctx.G(d)%4 == 3 {
+					// a hand-maintained file: repeated platform names, keywords and tags written once with an anchor and referred
+					// to by alias; what each entry declares is what the file says
+					fp := filepath.Join(ctx.Scratch, fmt.Sprintf("c04anch%d.yml", d))
+					plain := vlib.StripCaches(cmds0)
+					for i := range plain { // valid UTF-8 only
+						plain[i].Command, plain[i].Description = strings.ToValidUTF8(plain[i].Command, "?"), strings.ToValidUTF8(plain[i].Description, "?")
+					}
+					if err := vlib.WriteYAMLAnchored(fp, plain); err != nil {
+						panic(err)
+					}
+					defer os.Remove(fp)
+					x, err := database.LoadDatabase(fp)
+					if err != nil {
+						panic(err)
+					}
+					if len(x.Commands) != len(plain) {
+						panic(fmt.Sprintf("%d entries written, %d loaded", len(plain), len(x.Commands)))
+					}
+					db = x
+					c04Truth = map[*database.Command][]string{}
+					for i := range db.Commands {
+						c04Truth[&db.Commands[i]] = plain[i].Platform
+					}
+					dbName += "/file-with-anchors-and-aliases"
+					ctx.R.Path("databases-from-files-with-aliases", 1)
+					return
+				}
+				db = vlib.MustLoad(cmds0)
+			}) {
 				continue
 			}
 		}
@@ -103,7 +151,7 @@ func engineFilters(ctx *Ctx) {
 			// the notebook merge, by a refresh of the caching wrapper, or by appending - the filters hold for what is searched now
 			main := vlib.GenCommands(r, vlib.DBSpec{N: 3 + r.Intn(20), TieHeavy: true, Platforms: []int{0, 0, 1}[r.Intn(3)], Pipelines: true, PseudoCmd: true})
 			add := vlib.GenCommands(r, vlib.DBSpec{N: 3 + r.Intn(20), TieHeavy: true, Platforms: 2, Pipelines: true, PseudoCmd: true})
-			how := []string{"notebook-merge", "refresh", "append", "refresh-then-append"}[(g/4)%4]
+			how := []string{"notebook-merge", "refresh", "append", "refresh-then-append", "retag"}[(g/4)%5]
 			ok := ctx.R.Guard("C04", "grow database ("+how+")", dbName, func() {
 				mp := filepath.Join(ctx.Scratch, fmt.Sprintf("c04main%d.yml", d))
 				pp := filepath.Join(ctx.Scratch, fmt.Sprintf("c04pers%d.yml", d))
@@ -113,6 +161,46 @@ func engineFilters(ctx *Ctx) {
 				defer os.Remove(mp)
 				defer os.Remove(pp)
 				switch how {
+				case "retag":
+					// requests are answered (and cached), then the same entries are handed over again with nothing changed but the
+					// platforms they are declared for and their pipeline flags; the same requests again must obey the new attributes
+					x, err := database.LoadDatabaseWithPersonal(mp, pp)
+					if err != nil {
+						panic(err)
+					}
+					db = x
+					cdb = database.NewCachedDatabase(db)
+					mws := vlib.DBWords(db.Commands)
+					type rq struct {
+						q string
+						o database.SearchOptions
+					}
+					var asked []rq
+					for i := 0; i < 6 && len(mws) > 0; i++ {
+						o := database.SearchOptions{Limit: len(db.Commands) + 1, Platforms: c04PlatformSets[2+r.Intn(4)], PipelineOnly: r.Intn(3) == 0, NoCrossPlatform: r.Intn(3) == 0, UseNLP: r.Intn(2) == 0}
+						q := vlib.GenQuery(r, mws, 1+r.Intn(2), 0)
+						cdb.SearchWithOptionsAndCache(q, o)
+						asked = append(asked, rq{q, o})
+					}
+					re := append([]database.Command(nil), db.Commands...)
+					for i := range re {
+						switch r.Intn(3) {
+						case 0:
+							re[i].Platform = []string{vlib.AlienPlatforms[r.Intn(len(vlib.AlienPlatforms))]}
+						case 1:
+							re[i].Platform = []string{"windows"}
+						}
+						if r.Intn(2) == 0 {
+							re[i].Pipeline = false
+						}
+					}
+					cdb.UpdateDatabase(re)
+					db = cdb.Database
+					for _, a := range asked {
+						cs := map[string]interface{}{"db": dbName + "/retagged", "n": len(db.Commands), "query": a.q, "opts": vlib.OptsJ(a.o)}
+						c04Report(ctx, cs, a.o, cdb.SearchWithOptionsAndCache(a.q, a.o), "SearchWithOptionsAndCache", "cached-after-retag")
+						ctx.R.Path("requests-repeated-after-a-retag", 1)
+					}
 				case "notebook-merge":
 					if err := vlib.WriteYAML(pp, add); err != nil {
 						panic(err)
